@@ -57,7 +57,7 @@ impl Txn {
             date,
             effective_date: None,
             code: None,
-            payee: payee.to_string(),
+            payee: one_line(payee),
             comments: Vec::new(),
             dest_account: None,
             clear_state: None,
@@ -78,17 +78,17 @@ impl Txn {
     }
 
     pub fn code_option<'a>(&'a mut self, code: Option<&str>) -> &'a mut Txn {
-        self.code = code.map(str::to_string);
+        self.code = code.map(one_line);
         self
     }
 
     pub fn code<'a>(&'a mut self, code: &str) -> &'a mut Txn {
-        self.code = Some(code.to_string());
+        self.code = Some(one_line(code));
         self
     }
 
     pub fn add_comment(&mut self, comment: String) -> &mut Txn {
-        self.comments.push(comment);
+        self.comments.push(one_line(&comment));
         self
     }
 
@@ -162,7 +162,7 @@ impl Txn {
             commodity: amount.commodity.clone(),
         });
         self.charges.push(Charge {
-            payee: payee.to_string(),
+            payee: one_line(payee),
             amount,
         });
         Ok(self)
@@ -170,7 +170,7 @@ impl Txn {
 
     pub fn add_charge<'a>(&'a mut self, payee: &str, amount: OwnedAmount) -> &'a mut Txn {
         self.charges.push(Charge {
-            payee: payee.to_string(),
+            payee: one_line(payee),
             amount,
         });
         self
@@ -295,6 +295,12 @@ where
         value: PrettyDecimal::unformatted(amount.value),
         commodity: Cow::Borrowed(amount.commodity),
     }
+}
+
+/// Returns the text on one line without surrounding white spaces,
+/// so that it can be written into a Ledger file and read back as it is.
+fn one_line(text: &str) -> String {
+    text.replace(['\r', '\n'], " ").trim().to_string()
 }
 
 fn amount_with_sign(amount: &OwnedAmount, sign: Decimal) -> BorrowedAmount {
